@@ -21,17 +21,17 @@ import (
 //
 // Error budget (derived, then multiplied by the safety factor 16):
 //
-//   encode: the encoder computes u = IFFT(v) in its working precision (float64: p = 53, else p = Prec()) and rounds
-//   scale*u coefficient-wise to the nearest integer. A coefficient error e_k contributes at most sum_k |e_k| to a slot
-//   (|zeta| = 1; 2n coefficients in the standard ring, weights 1,2,..,2 in the conjugate-invariant one), so
-//       rounding      <= 2n * (1/2) / scale = n/scale
-//       floating point: a radix-2 (I)FFT on n points has forward error <= 4*eps*log2(n)*max|v| per coefficient
-//                       (eps = 2^-p); we allow 8*(log2 n + 2) + 4 ulps per coefficient (twiddle errors, the
-//                       float conversion of scale and of the product), i.e. 2n*(8(log n+2)+4)*2^-p*max|v| per slot.
-//   decode: d = FFT(a/scale): error <= (8(log n+2)+4)*2^-p * sum_k|a_k|/scale per slot, plus half an ulp of the output
-//   type (2^-52 |z| for float64 / complex128 outputs).
-//   DecodePublic(logprec): additionally |d - Decode| <= 2^-logprec / 2 and d * 2^logprec is an integer (up to 2^-p
-//   relative, since the arbitrary-precision path computes 2^logprec with exp/log).
+//	encode: the encoder computes u = IFFT(v) in its working precision (float64: p = 53, else p = Prec()) and rounds
+//	scale*u coefficient-wise to the nearest integer. A coefficient error e_k contributes at most sum_k |e_k| to a slot
+//	(|zeta| = 1; 2n coefficients in the standard ring, weights 1,2,..,2 in the conjugate-invariant one), so
+//	    rounding      <= 2n * (1/2) / scale = n/scale
+//	    floating point: a radix-2 (I)FFT on n points has forward error <= 4*eps*log2(n)*max|v| per coefficient
+//	                    (eps = 2^-p); we allow 8*(log2 n + 2) + 4 ulps per coefficient (twiddle errors, the
+//	                    float conversion of scale and of the product), i.e. 2n*(8(log n+2)+4)*2^-p*max|v| per slot.
+//	decode: d = FFT(a/scale): error <= (8(log n+2)+4)*2^-p * sum_k|a_k|/scale per slot, plus half an ulp of the output
+//	type (2^-52 |z| for float64 / complex128 outputs).
+//	DecodePublic(logprec): additionally |d - Decode| <= 2^-logprec / 2 and d * 2^logprec is an integer (up to 2^-p
+//	relative, since the arbitrary-precision path computes 2^logprec with exp/log).
 const safety = 16
 
 type ckksConf struct {
@@ -76,6 +76,9 @@ type ckksWorld struct {
 	N    int
 	maxL int // max LogDimensions.Cols
 	L    int
+
+	poisonPt *rlwe.Plaintext
+	poisonV  []complex128
 }
 
 var ckksWorlds = map[string]*ckksWorld{}
@@ -97,6 +100,24 @@ func getCkksWorld(cf ckksConf) *ckksWorld {
 	w.prec = w.ecd.Prec()
 	ckksWorlds[cf.name] = w
 	return w
+}
+
+// poison puts the encoder's internal scratch buffers into a fixed, non-trivial state (the result of encoding a
+// full vector of large distinct values on a scratch plaintext). The encoder is a stateful object; every leaf
+// must be a function of its choice vector only (replays run in a fresh process), and an encoder that lets stale
+// buffer content leak into a result then fails deterministically instead of depending on the exploration order.
+func (w *ckksWorld) poison() {
+	if w.poisonPt == nil {
+		w.poisonPt = ckks.NewPlaintext(w.p, w.L)
+		n := 1 << w.maxL
+		w.poisonV = make([]complex128, n)
+		for j := range w.poisonV {
+			w.poisonV[j] = complex(float64(j+1)*3.25, -float64(j+2)*1.5)
+		}
+	}
+	if err := w.ecd.Encode(w.poisonV, w.poisonPt); err != nil {
+		panic(err)
+	}
 }
 
 func (w *ckksWorld) precEff() int {
@@ -409,6 +430,7 @@ func (w *ckksWorld) roundTrip(c *engine.Chooser, s ckksSpec) bool {
 	pt.Scale = rlwe.NewScale(s.scale)
 	pt.IsNTT = s.ntt
 	dirty(pt.Value, w.p.Q())
+	w.poison()
 	err, pan := uni.Try(func() error { return w.ecd.Encode(typedInput(s.inTy, v), pt) })
 	if pan != nil {
 		failD(c, mk("encode-panic"), "%v: Encode panicked: %v", s, pan)
@@ -447,6 +469,7 @@ func (w *ckksWorld) roundTrip(c *engine.Chooser, s ckksSpec) bool {
 	for outTy := 0; outTy < 4; outTy++ {
 		for _, logprec := range []float64{0, 10, 25} {
 			out := newOutput(outTy, n)
+			w.poison()
 			err, pan := uni.Try(func() error {
 				if logprec == 0 {
 					return w.ecd.Decode(pt, out)
@@ -540,7 +563,7 @@ func (w *ckksWorld) cover(c *engine.Chooser, s ckksSpec) {
 }
 
 // shapeScenario: LogDimensions x level x NTT flag x input type x length, default scale, mixed values.
-// With full=true (thorough tier, LogN <= 5) the scale and the value family are enumerated as well: the complete product.
+// With full=true (thorough tier) the scale and the value family are enumerated as well: the complete product.
 func ckksShapeScenario(cf ckksConf, full bool) engine.Scenario {
 	name := "ckks/" + cf.name + "/shape"
 	return engine.Scenario{Name: name, Bound: -1, Fn: func(c *engine.Chooser) {
@@ -920,7 +943,7 @@ func ckksEmbedScenario(cf ckksConf) engine.Scenario {
 func ckksScenarios(tier string) []engine.Scenario {
 	var scs []engine.Scenario
 	for _, cf := range ckksConfigs(tier) {
-		scs = append(scs, ckksShapeScenario(cf, tier == "thorough" && cf.logN <= 5), ckksValueScenario(cf), ckksCoeffScenario(cf), ckksProductScenario(cf), ckksFFTScenario(cf), ckksEmbedScenario(cf))
+		scs = append(scs, ckksShapeScenario(cf, tier == "thorough"), ckksValueScenario(cf), ckksCoeffScenario(cf), ckksProductScenario(cf), ckksFFTScenario(cf), ckksEmbedScenario(cf))
 	}
 	return scs
 }
